@@ -25,13 +25,14 @@ class Regions:
     """
 
     def __init__(self, regions=(), /):
-        if regions == ():
-            regions = []
+        # copy first: the input may be any iterable (e.g., a generator,
+        # which can be traversed only once)
+        regions = list(regions)
         for item in regions:
             if not isinstance(item, Region):
                 raise TypeError('Input regions must be a list of Region '
                                 'objects')
-        self.regions = list(regions)
+        self.regions = regions
 
     def __getitem__(self, index):
         newregions = self.regions[index]
